@@ -38,11 +38,27 @@ References
 
 """
 
+import codecs
 import sys
 from io import StringIO
 
 from cnfgen.formula.basecnf import BaseCNF
 from cnfgen.formula.baseopb import BaseOPB
+
+# Characters of a plain text which mean something to TeX
+_TEX_SPECIAL_CHARS = {
+    '\\': r'\textbackslash{}',
+    '{': r'\{',
+    '}': r'\}',
+    '%': r'\%',
+    '#': r'\#',
+    '&': r'\&',
+    '$': r'\$',
+    '_': r'\_',
+    '^': r'\^{}',
+    '~': r'\~{}',
+}
+
 
 def to_latex_string(F):
     """LaTeX string of the CNF formula
@@ -190,9 +206,19 @@ def to_latex_document(F, fileorname, export_header=True, extra_text=""):
     output.write(latex_preamble)
     output.write("\\begin{document}\n")
     title = F.header['description']
-    # e.g. the name of an input file which is not valid utf-8
-    title = title.encode('utf-8', errors='replace').decode('utf-8')
-    title = title.replace("_", "\\_")
+    # e.g. the name of an input file which is not valid utf-8, or which
+    # cannot be written to an output that is not utf-8 (the document
+    # declares utf-8, there we stick to ascii)
+    encoding = getattr(output, 'encoding', None) or 'utf-8'
+    try:
+        if codecs.lookup(encoding).name != 'utf-8':
+            encoding = 'ascii'
+    except LookupError:
+        encoding = 'ascii'
+    title = title.encode(encoding, errors='replace').decode(encoding)
+    # e.g. the name of an input file like `50%_done.cnf`
+    title = "".join(_TEX_SPECIAL_CHARS.get(c, c) for c in title)
+    title = " ".join(title.split())
     output.write("\\title{{{}}}\n".format(title))
     output.write("\\author{CNFgen formula generator}\n")
     output.write("\\maketitle\n")
